@@ -58,6 +58,26 @@ func debugDump(w *World, what string, args []string) {
 			fmt.Println(o.Status, o.Pos, o.Key, "::", o.Detail)
 		}
 		fmt.Println("ok", nok)
+	case "builderbounds":
+		r := NewReport("C19", "quick", "/tmp/dbg")
+		r.W = w
+		var fns []*ssa.Function
+		for _, fn := range srcFuncsReachable(w, mustFuncs(w, r, "opentype/gtab/builder.Parse")) {
+			if fnPkgPath(fn) == builderPkg {
+				fns = append(fns, fn)
+			}
+		}
+		sort.Slice(fns, func(i, j int) bool { return fnName(fns[i]) < fnName(fns[j]) })
+		RunBounds(w, r, "bounds", newBoundsRun(w), fns)
+		nok := 0
+		for _, o := range r.Obls {
+			if o.Status == StOK {
+				nok++
+				continue
+			}
+			fmt.Println(o.Status, o.Pos, o.Key, "::", o.Detail)
+		}
+		fmt.Println("ok", nok)
 	case "extremumlocal":
 		r := NewReport("C12", "quick", "/tmp/dbg")
 		r.W = w
